@@ -47,7 +47,7 @@ _BTC_WIF_NET_VER_TN: bytes = b"\xef"
 _BTC_P2PKH_NET_VER_RT: bytes = _BTC_P2PKH_NET_VER_TN
 _BTC_P2SH_NET_VER_RT: bytes = _BTC_P2SH_NET_VER_TN
 _BTC_P2WPKH_HRP_RT: str = Slip173.BITCOIN_REGTEST
-_BTC_P2WPKH_WIT_VER_RT: int = _BTC_P2TR_WIT_VER_TN
+_BTC_P2WPKH_WIT_VER_RT: int = _BTC_P2WPKH_WIT_VER_TN
 _BTC_P2TR_HRP_RT: str = Slip173.BITCOIN_REGTEST
 _BTC_P2TR_WIT_VER_RT: int = _BTC_P2TR_WIT_VER_TN
 _BTC_WIF_NET_VER_RT: bytes = _BTC_WIF_NET_VER_TN
